@@ -29,9 +29,12 @@ Feasible(a) == a.kept >= Base(a)
 TooLong(a)   == a.kept > LINE_CAP - 1                       \* rejected by the filter, nothing is tokenized
 FilterJ(a)   == MinOf(a.kept, LINE_CAP - 1)
 NTok(a)      == a.nopd + (IF a.xlen > 0 THEN 1 ELSE 0)      \* the memory operand (if any) comes last
-OpdSlot(a)   == IF TooLong(a) \/ NTok(a) = 0 THEN -1 ELSE MinOf(NTok(a), NOPD) - 1
+\* a register operand must be the register name and nothing else: a token longer than the REG_COPY characters that are copied
+\* ends the tokenization at the first operand
+Stops(a)     == a.nopd > 0 /\ a.rlen > REG_COPY
+OpdSlot(a)   == IF TooLong(a) \/ NTok(a) = 0 THEN -1 ELSE IF Stops(a) THEN 0 ELSE MinOf(NTok(a), NOPD) - 1
 RegsSeen(a)  == ~TooLong(a) /\ a.nopd > 0
-MemSeen(a)   == ~TooLong(a) /\ a.xlen > 0 /\ a.nopd < NOPD
+MemSeen(a)   == ~TooLong(a) /\ a.xlen > 0 /\ a.nopd < NOPD /\ ~Stops(a)
 RegCursor(a) == MaxOf({-1} \cup (IF RegsSeen(a) /\ a.rlen >= 2 THEN {MinOf(a.rlen, REG_COPY) - 1} ELSE {})
                            \cup (IF MemSeen(a) THEN {2} ELSE {}))          \* the base register "rax" of the memory operand
 IdxLen(a)    == IF MemSeen(a) THEN MinOf(a.xlen, REG_COPY) ELSE -1
